@@ -67,8 +67,8 @@ def real_stage(tier, seed, V):
             if cmd == "REGISTER":
                 created.add((rtype, name))
             steps.append([rng.randrange(ncl), cmd, name, rtype])
-        jobs.append({"repo": common.REPO, "dir": d, "n_clients": ncl, "steps": steps})
-    stats = {"cases": 0, "steps": 0, "destructions_observed": 0, "eof_sweeps_checked": 0, "multi_client_cases": 0, "inconclusive": 0}
+        jobs.append({"repo": common.REPO, "dir": d, "n_clients": ncl, "steps": steps, "burst": rng.choice([150, 400, 900]) if i % 6 == 2 else 0})
+    stats = {"burst_cases": 0, "burst_requests": 0, "cases": 0, "steps": 0, "destructions_observed": 0, "eof_sweeps_checked": 0, "multi_client_cases": 0, "inconclusive": 0}
     samples = []
     running = []
     pending = list(jobs)
@@ -100,6 +100,9 @@ def real_stage(tier, seed, V):
         stats["cases"] += 1
         stats["steps"] += len(rep["steps"])
         stats["multi_client_cases"] += 1 if j["n_clients"] > 1 else 0
+        if rep.get("burst"):
+            stats["burst_cases"] += 1
+            stats["burst_requests"] += 3 * rep["burst"]
         stats["destructions_observed"] += sum(1 for s_ in rep["steps"] if s_[4] and not s_[5])
         viol = rep.get("violation")
         if viol is None:
